@@ -428,6 +428,150 @@ fn e_u16(x: f64) -> u16 {
     x.into_stimulus()
 }
 
+
+// ---- colour level, every type that has into_format / from_format ----
+// (Rgb, Luma, Lms; Hsl, Hsv, Hwb, Okhsl, Okhsv, Okhwb whose hue goes through FromAngle instead; bare and Alpha forms with
+// an alpha of a different number format.) Oracle: field k of the result is the per-component conversion of field k of the
+// source (FromStimulus, itself decided by the other sub-checks against exact arithmetic; FromAngle is decided by C11), the
+// alpha is the per-component conversion of the alpha, nothing is swapped, from_format == into_format.
+trait Num: Copy + core::fmt::Debug {
+    fn bits(self) -> u64;
+    fn unit(x: f64) -> Self;
+    fn deg(x: f64) -> Self;
+}
+macro_rules! num_float { ($($t:ty),*) => {$(impl Num for $t {
+    fn bits(self) -> u64 { self.to_bits() as u64 }
+    fn unit(x: f64) -> Self { x as $t }
+    fn deg(x: f64) -> Self { x as $t }
+})*} }
+macro_rules! num_uint { ($($t:ty),*) => {$(impl Num for $t {
+    fn bits(self) -> u64 { self as u64 }
+    fn unit(x: f64) -> Self { let m = <$t>::MAX as f64; (x.clamp(0.0, 1.0) * m).round() as $t }
+    fn deg(x: f64) -> Self { let m = <$t>::MAX as f64 + 1.0; ((x.rem_euclid(360.0) / 360.0 * m).floor() as u128 % (m as u128)) as $t }
+})*} }
+num_float!(f32, f64);
+num_uint!(u8, u16, u32);
+
+macro_rules! fmt_plain {
+    // colour without a hue: $C<$g.., T>, fields $f..
+    ($obs:ident, $lbl:expr, $C:ident, [$($g:ty),*], [$($f:ident),+], $T:ty => $U:ty, $B:ty, $v:expr, $a:expr) => {{
+        use palette::stimulus::FromStimulus;
+        let v: [f64; 3] = $v;
+        let mut k = 0usize;
+        $( let $f: $T = <$T as Num>::unit(v[k]); k += 1; )+
+        let _ = k;
+        let src = $C::<$($g,)* $T>::new($($f),+);
+        let dst: $C<$($g,)* $U> = src.into_format();
+        $( ensure!(dst.$f.bits() == <$U as FromStimulus<$T>>::from_stimulus(src.$f).bits(),
+            "{}<{}>::into_format::<{}>: field {} = {:?}, the component conversion of {:?} is {:?}", $lbl, stringify!($T), stringify!($U), stringify!($f), dst.$f, src.$f, <$U as FromStimulus<$T>>::from_stimulus(src.$f)); )+
+        let dst2 = $C::<$($g,)* $U>::from_format(src);
+        $( ensure!(dst2.$f.bits() == dst.$f.bits(), "{}<{}>::from_format differs from into_format in field {}", $lbl, stringify!($U), stringify!($f)); )+
+        let al: $T = <$T as Num>::unit($a);
+        let asrc = palette::Alpha { color: src, alpha: al };
+        let adst: palette::Alpha<$C<$($g,)* $U>, $B> = asrc.into_format();
+        $( ensure!(adst.color.$f.bits() == dst.$f.bits(), "Alpha<{}<{}>>::into_format::<{}, {}>: colour field {} = {:?} but the bare colour gives {:?}", $lbl, stringify!($T), stringify!($U), stringify!($B), stringify!($f), adst.color.$f, dst.$f); )+
+        ensure!(adst.alpha.bits() == <$B as FromStimulus<$T>>::from_stimulus(al).bits(),
+            "Alpha<{}<{}>>::into_format::<{}, {}>: alpha = {:?}, the component conversion of {:?} is {:?}", $lbl, stringify!($T), stringify!($U), stringify!($B), adst.alpha, al, <$B as FromStimulus<$T>>::from_stimulus(al));
+        let adst2 = palette::Alpha::<$C<$($g,)* $U>, $B>::from_format(asrc);
+        $( ensure!(adst2.color.$f.bits() == dst.$f.bits(), "Alpha<{}>::from_format differs in field {}", $lbl, stringify!($f)); )+
+        ensure!(adst2.alpha.bits() == adst.alpha.bits(), "Alpha<{}>::from_format differs in alpha", $lbl);
+        $obs.class(concat!("format ", stringify!($T), " -> ", stringify!($U)));
+    }};
+}
+macro_rules! fmt_hue {
+    // colour with a hue first: $C<$g.., T>::new(hue, f1, f2); $bare_from: whether the bare type has from_format
+    ($obs:ident, $lbl:expr, $C:ident, [$($g:ty),*], [$f1:ident, $f2:ident], $bare_from:tt, $T:ty => $U:ty, $B:ty, $v:expr, $a:expr) => {{
+        use palette::stimulus::FromStimulus;
+        let v: [f64; 3] = $v;
+        let h: $T = <$T as Num>::deg(v[0]);
+        let $f1: $T = <$T as Num>::unit(v[1]);
+        let $f2: $T = <$T as Num>::unit(v[2]);
+        let src = $C::<$($g,)* $T>::new(h, $f1, $f2);
+        let dst: $C<$($g,)* $U> = src.into_format();
+        let eh = src.hue.into_format::<$U>().into_inner();
+        ensure!(dst.hue.into_inner().bits() == eh.bits(), "{}<{}>::into_format::<{}>: hue = {:?}, the hue's own conversion of {:?} gives {:?}", $lbl, stringify!($T), stringify!($U), dst.hue.into_inner(), h, eh);
+        ensure!(dst.$f1.bits() == <$U as FromStimulus<$T>>::from_stimulus($f1).bits(),
+            "{}<{}>::into_format::<{}>: field {} = {:?}, the component conversion of {:?} is {:?}", $lbl, stringify!($T), stringify!($U), stringify!($f1), dst.$f1, $f1, <$U as FromStimulus<$T>>::from_stimulus($f1));
+        ensure!(dst.$f2.bits() == <$U as FromStimulus<$T>>::from_stimulus($f2).bits(),
+            "{}<{}>::into_format::<{}>: field {} = {:?}, the component conversion of {:?} is {:?}", $lbl, stringify!($T), stringify!($U), stringify!($f2), dst.$f2, $f2, <$U as FromStimulus<$T>>::from_stimulus($f2));
+        fmt_hue!(@bare $bare_from, $lbl, $C, [$($g),*], [$f1, $f2], $U, src, dst);
+        let al: $T = <$T as Num>::unit($a);
+        let asrc = palette::Alpha { color: src, alpha: al };
+        let adst: palette::Alpha<$C<$($g,)* $U>, $B> = asrc.into_format();
+        ensure!(adst.color.hue.into_inner().bits() == eh.bits() && adst.color.$f1.bits() == dst.$f1.bits() && adst.color.$f2.bits() == dst.$f2.bits(),
+            "Alpha<{}<{}>>::into_format::<{}, {}>: colour {:?} but the bare colour gives {:?}", $lbl, stringify!($T), stringify!($U), stringify!($B), adst.color, dst);
+        ensure!(adst.alpha.bits() == <$B as FromStimulus<$T>>::from_stimulus(al).bits(),
+            "Alpha<{}<{}>>::into_format::<{}, {}>: alpha = {:?}, the component conversion of {:?} is {:?}", $lbl, stringify!($T), stringify!($U), stringify!($B), adst.alpha, al, <$B as FromStimulus<$T>>::from_stimulus(al));
+        let adst2 = palette::Alpha::<$C<$($g,)* $U>, $B>::from_format(asrc);
+        ensure!(adst2.color.hue.into_inner().bits() == eh.bits() && adst2.color.$f1.bits() == dst.$f1.bits() && adst2.color.$f2.bits() == dst.$f2.bits() && adst2.alpha.bits() == adst.alpha.bits(),
+            "Alpha<{}>::from_format differs from into_format: {:?} vs {:?}", $lbl, adst2, adst);
+        $obs.class(concat!("format ", stringify!($T), " -> ", stringify!($U)));
+    }};
+    (@bare yes, $lbl:expr, $C:ident, [$($g:ty),*], [$f1:ident, $f2:ident], $U:ty, $src:ident, $dst:ident) => {
+        let dst2 = $C::<$($g,)* $U>::from_format($src);
+        ensure!(dst2.hue.into_inner().bits() == $dst.hue.into_inner().bits() && dst2.$f1.bits() == $dst.$f1.bits() && dst2.$f2.bits() == $dst.$f2.bits(),
+            "{}<{}>::from_format differs from into_format: {:?} vs {:?}", $lbl, stringify!($U), dst2, $dst);
+    };
+    (@bare no, $lbl:expr, $C:ident, [$($g:ty),*], [$f1:ident, $f2:ident], $U:ty, $src:ident, $dst:ident) => {};
+}
+
+#[derive(Debug, Clone, Serialize, Deserialize)]
+struct Fmt2Case {
+    ty: usize,
+    v: [f64; 3],
+    a: f64,
+}
+const FMT2_TYPES: usize = 13;
+fn fmt2_point(c: &Fmt2Case, obs: &mut Obs) -> PropResult {
+    use palette::encoding::{Linear, Srgb as SrgbStd};
+    use palette::lms::{matrix::VonKries, Lms};
+    use palette::luma::Luma;
+    use palette::rgb::Rgb;
+    use palette::white_point::D65;
+    use palette::{Hsl, Hsv, Hwb, Okhsl, Okhsv, Okhwb};
+    type Rec2020 = palette::encoding::Rec2020;
+    type VK = VonKries;
+    obs.nontrivial();
+    let (v, a) = (c.v, c.a);
+    macro_rules! hue_pairs { ($lbl:expr, $C:ident, [$($g:ty),*], [$f1:ident, $f2:ident], $bf:tt) => {{
+        fmt_hue!(obs, $lbl, $C, [$($g),*], [$f1, $f2], $bf, f64 => u8, f32, v, a);
+        fmt_hue!(obs, $lbl, $C, [$($g),*], [$f1, $f2], $bf, f64 => f32, u8, v, a);
+        fmt_hue!(obs, $lbl, $C, [$($g),*], [$f1, $f2], $bf, f32 => u8, f64, v, a);
+        fmt_hue!(obs, $lbl, $C, [$($g),*], [$f1, $f2], $bf, f32 => f64, u16, v, a);
+        fmt_hue!(obs, $lbl, $C, [$($g),*], [$f1, $f2], $bf, u8 => f32, f64, v, a);
+        fmt_hue!(obs, $lbl, $C, [$($g),*], [$f1, $f2], $bf, u8 => f64, u8, v, a);
+        fmt_hue!(obs, $lbl, $C, [$($g),*], [$f1, $f2], $bf, u8 => u8, f32, v, a);
+    }} }
+    macro_rules! plain_pairs { ($lbl:expr, $C:ident, [$($g:ty),*], [$($f:ident),+]) => {{
+        fmt_plain!(obs, $lbl, $C, [$($g),*], [$($f),+], f64 => u8, f32, v, a);
+        fmt_plain!(obs, $lbl, $C, [$($g),*], [$($f),+], f64 => u16, u8, v, a);
+        fmt_plain!(obs, $lbl, $C, [$($g),*], [$($f),+], f64 => f32, u16, v, a);
+        fmt_plain!(obs, $lbl, $C, [$($g),*], [$($f),+], f32 => u8, f64, v, a);
+        fmt_plain!(obs, $lbl, $C, [$($g),*], [$($f),+], f32 => u32, f32, v, a);
+        fmt_plain!(obs, $lbl, $C, [$($g),*], [$($f),+], u8 => f32, f64, v, a);
+        fmt_plain!(obs, $lbl, $C, [$($g),*], [$($f),+], u8 => u16, u32, v, a);
+        fmt_plain!(obs, $lbl, $C, [$($g),*], [$($f),+], u16 => u8, f32, v, a);
+        fmt_plain!(obs, $lbl, $C, [$($g),*], [$($f),+], u16 => f64, u8, v, a);
+        fmt_plain!(obs, $lbl, $C, [$($g),*], [$($f),+], u32 => u16, f64, v, a);
+    }} }
+    match c.ty {
+        0 => hue_pairs!("Hsl", Hsl, [SrgbStd], [saturation, lightness], yes),
+        1 => hue_pairs!("Hsv", Hsv, [SrgbStd], [saturation, value], yes),
+        2 => hue_pairs!("Hwb", Hwb, [SrgbStd], [whiteness, blackness], yes),
+        3 => hue_pairs!("Okhsl", Okhsl, [], [saturation, lightness], yes),
+        4 => hue_pairs!("Okhsv", Okhsv, [], [saturation, value], no),
+        5 => hue_pairs!("Okhwb", Okhwb, [], [whiteness, blackness], no),
+        6 => hue_pairs!("Hsl<Linear<Srgb>>", Hsl, [Linear<SrgbStd>], [saturation, lightness], yes),
+        7 => hue_pairs!("Hwb<Rec2020>", Hwb, [Rec2020], [whiteness, blackness], yes),
+        8 => plain_pairs!("Rgb<Srgb>", Rgb, [SrgbStd], [red, green, blue]),
+        9 => plain_pairs!("Rgb<Linear<Srgb>>", Rgb, [Linear<SrgbStd>], [red, green, blue]),
+        10 => plain_pairs!("Rgb<Rec2020>", Rgb, [Rec2020], [red, green, blue]),
+        11 => plain_pairs!("Lms", Lms, [VK], [long, medium, short]),
+        _ => plain_pairs!("Luma", Luma, [SrgbStd], [luma]),
+    }
+    Ok(())
+}
+
 fn main() {
     let mut h = Harness::new("C06");
     h.rule("float sources: every enumerated/generated bit pattern is checked against saturation (x<=0 -> 0; x>=1, +inf, NaN -> MAX), nearest-integer (|r - x*MAX| <= 0.5 + one rounding of the product) and monotonicity w.r.t. the neighbouring representable value; integer sources: endpoints, monotone, exact widening, widen/narrow and int->float->int identities. Non-trivial = float strictly inside (0,1) or NaN/inf/huge-negative; integer not 0/MAX. Sweep inputs are distinct by construction; generated cases are de-duplicated by hash.");
@@ -538,6 +682,26 @@ fn main() {
                 .prop_map(|(comps, ints)| FmtCase { comps, ints })
         },
         fmt_point,
+    );
+    let n = h.n(400_000, 8_000_000);
+    h.prop(
+        "into_format_every_colour_type",
+        n,
+        || {
+            (
+                0usize..FMT2_TYPES,
+                proptest::array::uniform3(prop_oneof![4 => pv::gen::unit(), 1 => -2.0..=3.0f64, 1 => Just(0.0), 1 => Just(1.0), 1 => (0u32..=256).prop_map(|k| k as f64 / 256.0)]),
+                prop_oneof![3 => pv::gen::unit(), 1 => Just(0.0), 1 => Just(1.0), 1 => -1.0..=2.0f64],
+                -720.0..=720.0f64,
+            )
+                .prop_map(|(ty, mut v, a, hue)| {
+                    if ty < 8 {
+                        v[0] = hue;
+                    }
+                    Fmt2Case { ty, v, a }
+                })
+        },
+        fmt2_point,
     );
     h.finish();
 }
